@@ -18,8 +18,8 @@ RULE = (
 )
 ASSUMPTIONS = ["numpy reference interpolation (vlib.refmodel)", "log grids are only evaluated inside their range"]
 BATCH = {"quick": 8, "thorough": 20}
-FLOORS = {"quick": {"points_compared": 20000, "spaces": 100, "node_points": 2000, "outside_points": 500, "checkify_runs": 50},
-          "thorough": {"points_compared": 300000, "spaces": 1200, "node_points": 40000, "outside_points": 10000, "checkify_runs": 600}}
+FLOORS = {"quick": {"points_compared": 20000, "spaces": 100, "node_points": 2000, "outside_points": 500},
+          "thorough": {"points_compared": 300000, "spaces": 1200, "node_points": 40000, "outside_points": 10000}}
 
 
 def plan(tier, seed):
